@@ -35,6 +35,8 @@ package varmq
 //@ type worker: ghost $nodes Int
 //@ type worker: ghost $dispatched Int
 //@ type worker: ghost $freed Int
+//@ type worker: ghost $lockEpoch Int
+//@ type worker: ghost $cancelEpoch Int
 //@ type worker: guarded_by mx: eventLoopSignal, errorChan, tickers, ctx, cancel
 //@ type worker: frozen workerFunc, pool, waiters, metrics, Configs
 // $disp: dispatcher goroutines reading w.eventLoopSignal (they return when that channel is closed)
@@ -373,7 +375,7 @@ package varmq
 //@   requires RI_worker(w) && (forall q ref {$lenOf(q)} :: $lenOf(q) >= 0) && w.Configs.idleWorkerExpiryDuration >= 0 && len(w.tickers) < MaxInt
 //@   modifies w.status, w.curProcessing, $lenOf, $alloc, linkedlist.Node.next, linkedlist.Node.prev, w.pool.List.len, w.pool.List.$at, w.pool.List.$pos, w.pool.List.$in,
 //@            key CH:sent<, key CH:rcvd<, key CHV:<, w.$nodes, w.$dispatched, w.$freed, w.tickers, w.tickers[**], w.eventLoopSignal, w.errorChan, w.ctx, w.cancel,
-//@            $open(w.eventLoopSignal), $open(w.errorChan), w.$disp, key G:$poolputs, $usercalls, w.$listeners, w.$armed, $spawned, w.$reapers, key G:$tickersLive
+//@            $open(w.eventLoopSignal), $open(w.errorChan), w.$disp, key G:$poolputs, $usercalls, w.$listeners, w.$armed, $spawned, w.$reapers, key G:$tickersLive, w.$lockEpoch, w.$cancelEpoch
 //@   ensures [running]  result == nil && w.status == running
 //@   ensures [ri]       RI_worker(w)
 //@   ensures [reapers@C18]  w.$reapers <= 1
@@ -381,6 +383,12 @@ package varmq
 //@   ghost after call funcvalue when w.$listeners > 0: w.$armed := w.$armed + w.$listeners
 //@   ghost after call funcvalue: w.$listeners := 0
 //@   ghost after store ctx: w.$armed := 0
+// The old context is cancelled and replaced inside ONE write-locked section of w.mx: the old listener (which re-reads w.ctx under RLock) can
+// then never see its own, already cancelled context still installed and stop the restarted worker.
+//@   ghost after call sync.RWMutex.Unlock: w.$lockEpoch := w.$lockEpoch + 1
+//@   ghost after call funcvalue: w.$cancelEpoch := w.$lockEpoch
+//@   assert [cancel-locked@C14] after call funcvalue: $held(w.mx)
+//@   assert [rearm-atomic@C14] after store ctx: $held(w.mx) && w.$cancelEpoch == w.$lockEpoch
 
 // TunePool: only a running worker can be tuned; the limit becomes withSafeConcurrency(n); growing raises the signal; shrinking (without
 // idle expiry) retires at most old-new idle workers and never goes below the idle minimum that was available.
